@@ -82,11 +82,15 @@ func EnvEvent(o *EnvObj, res int) {
 	s := S
 	if s.cur != nil && !s.aborting {
 		s.hbEvent(s.cur, []*obj{&o.o}, 1000+res)
+		o.sync.Touch()
 	}
 }
 
 // EnvObj is the happens-before identity of a scenario object.
-type EnvObj struct{ o obj }
+type EnvObj struct {
+	o    obj
+	sync SyncObj
+}
 
 var cache map[uint64]int16
 
